@@ -1047,6 +1047,7 @@ Fixpoint dl_script (keep : bool) (ops : list N) (fuel : nat) (s : dl) (counter :
     else if kind =? 2 then
       let s' := dstep keep s DDrop in dl_script keep rest f s' counter offers (lens ++ [lenN (wire s')])
     else
+      (* 3: ended in order; 4: ended in order with a client that pauses first - however long it pauses, everything is written *)
       let s' := dstep keep s DClose in (offers, lens ++ [lenN (wire s')], s', 1)
   | _, _ => (offers, lens, s, 0)
   end.
